@@ -6,10 +6,11 @@ from common import *
 from pipeline import run_pipeline
 
 TIERS = {
-    "quick": dict(mc=[], random=dict(runs=400, events=30)),
-    "thorough": dict(mc=[], random=dict(runs=6000, events=40)),
+    "quick": dict(mc=[("MC_SampleCache_q_all.cfg", 8), ("MC_SampleCache_q_d1.cfg", 8), ("MC_SampleCache_q_bad.cfg", 4)], replay_limit=6000, random=dict(runs=400, events=30)),
+    "thorough": dict(mc=[("MC_SampleCache_t_all.cfg", 12), ("MC_SampleCache_t_d2.cfg", 12), ("MC_SampleCache_t_bad.cfg", 12), ("MC_SampleCache_q_d1.cfg", 8)], replay_limit=80000, random=dict(runs=6000, events=40)),
 }
 ASSUME = [
+    "state space bounded by the constants in spec/MC_SampleCache_*.cfg (instances, writers, arrivals, calls, forms, History depth); in the model arrivals are in order per writer and the reader is best-effort, so hand-over order = reception order",
     "arrivals are listed in the order in which the reader hands them to the DataReader (reliable: per writer in GUID order, C01)",
     "KeepLast is judged as an upper bound; completeness of results only with KeepAll",
     "a dispose by key hash is sent only by the writer that created the instance (otherwise whether the hash is known depends on the hand-over order)",
@@ -31,8 +32,30 @@ def run_c09(pid, tier, seed, replay):
     build_harness()
     n = 330 if tier == "quick" else 3300
     sf = os.path.join(d, "specs.jsonl")
+    mc_detail, n_tlc = [], 0
     if replay is None:
         vh(["cache", "gen-c09", "--seed", seed, "--runs", n, "--events", 24, "--out", sf])
+        # every sequence (within the bound) of values, disposes and unintelligible changes and calls: model checked
+        # (nothing lost behind a bad change, every call returns, errors at most once per bad change) and replayed
+        outs = []
+        for c, workers in ([("MC_SampleCache_q_bad.cfg", 4)] if tier == "quick" else [("MC_SampleCache_q_bad.cfg", 4), ("MC_SampleCache_t_bad.cfg", 12)]):
+            o, info = tlc("SampleCache.tla", c, os.path.join(d, "tlc_mc"), workers=workers, timeout=3000)
+            if not info.get("ok"):
+                log(o[-1500:]); raise ToolError(f"model checking {c} did not complete cleanly: {info}")
+            mc_detail.append({"cfg": c, **{k: info.get(k) for k in ("states", "transitions", "depth", "wall_s")}})
+            log(f"[mc] {c}: {info['states']} distinct states, {info['transitions']} transitions")
+            outs.append(o)
+        rp = os.path.join(d, "tlc_replays.jsonl")
+        n_tlc, _ = extract_replays("\n".join(outs), rp, limit=(1500 if tier == "quick" else 30000), seed=seed)
+        with open(sf, "a") as f:
+            for line in open(rp):
+                r = json.loads(line)
+                # the application calls the last form until empty, as the property's "later changes are delivered" demands
+                forms = [a["form"] for a in r["acts"] if a.get("a") == "Call"]
+                r["acts"].append({"a": "Drain", "form": forms[-1] if forms else "take"})
+                f.write(json.dumps(r) + "\n")
+        n += n_tlc
+        log(f"[gen] {n_tlc} TLC behaviours with unintelligible changes appended, each followed by a drain")
     else:
         rj = json.load(open(replay))
         with open(sf, "w") as f:
@@ -64,9 +87,10 @@ def run_c09(pid, tier, seed, replay):
                 "rule": "one run = seeded sequence of values / disposes / unintelligible changes (undecodable payload, unknown representation id, dispose by unseen key hash) from two writers, one read/take form (all DataReader forms, both async streams, SimpleDataReader) called at random points and then until empty; distinct by seed and form index; non-trivial = completed under the supervisor and validated",
                 "samples": [{"trace_of_one_real_run": [json.loads(x) for x in sample[:12]]}],
                 "runs_per_mode": forms, "impl_events_validated": events, "calls_that_did_not_return": deaths[:10],
-                "traces_validated_against_impl": n}
+                "traces_validated_against_impl": n, "model_checking": mc_detail, "tlc_behaviours_replayed_into_impl": n_tlc,
+                "states": sum(m["states"] for m in mc_detail), "transitions": sum(m["transitions"] for m in mc_detail)}
     if replay is None:
-        write_evidence(pid, tier, seed, "exploration", coverage, ASSUME + ["8 s without progress = the call did not return"], time.time() - t0, len(violations))
+        write_evidence(pid, tier, seed, "model_checking" if mc_detail else "exploration", coverage, ASSUME + ["8 s without progress = the call did not return"], time.time() - t0, len(violations))
     return finish(pid, violations, [])
 
 
